@@ -2,6 +2,7 @@
 from pyvc.api import *
 from pyvc.run import Lemma, Bounded
 from pyvc.api import CalleeContract
+from pyvc.terms import Unsupported
 
 PROPERTY = "C08"
 LEVEL = "proof"
@@ -83,6 +84,39 @@ def _scaled(a, r, c):
     raise NotImplementedError
 
 
+def _linear_in_density(a, r):
+    """at fixed roughness the wind input is linear in the variance density: S(c*E1 + E2) = c*S(E1) + S(E2).
+    Proof side: the result term is re-instantiated with the input array symbol replaced (valid because no
+    path condition mentions E: checked); twin side: the real function is called on the combined input."""
+    E = a.variance_density
+    if hasattr(E, "_a"):
+        f = E._a.func
+        if any(_T.mentions(_T.to_z3(h), (), {f.get_id()}) for h in a._pc[_N_REQ[0]:] if _T.is_sym(h)):
+            return False      # control flow depends on the spectrum: substitution argument not applicable
+        c = _z3.Real("lin_c")
+        E2 = _z3.Function("E_other", _T.IntS, _T.IntS, _T.RealS)
+        v0, v1 = _z3.Var(0, _T.IntS), _z3.Var(1, _T.IntS)
+
+        def cell(i, j):
+            t = _T.to_z3(r[i, j])
+            t_comb = _T.subst_deep(t, (), [(f, c * f(v0, v1) + E2(v0, v1))])
+            t_2 = _T.subst_deep(t, (), [(f, E2(v0, v1))])
+            return t_comb == c * t + t_2
+        return forall2((0, E.shape[0]), (0, E.shape[1]), cell)
+    import numpy as np
+    from ocean_science_utilities.wavephysics.balance.st4_wind_input import _st4_wind_generation_point as fn
+    rng = np.random.default_rng(3)
+    E2 = rng.random(E.shape)
+    c = 2.5
+    args = (a.wind, a.depth, a.roughness_length, a.spectral_grid, a.parameters)
+    lhs = fn(c * np.asarray(E) + E2, *args)
+    rhs = c * np.asarray(r) + fn(E2, *args)
+    return bool(np.allclose(lhs, rhs, rtol=1e-9, atol=1e-14))
+
+
+_N_REQ = [5]
+
+
 st4_point = Contract(
     B + "st4_wind_input.py::_st4_wind_generation_point",
     instances=[(f"{w},{'deep' if d else 'finite'}", _st4_point_params(w, d)) for w in ("u10", "friction_velocity", "ustar") for d in (True, False)],
@@ -99,6 +133,7 @@ st4_point = Contract(
                                                     lambda i, j: implies(a.variance_density[i, j] == 0, r[i, j] == 0))),
         ("zero_upwind", lambda a, r: forall2((0, a.variance_density.shape[0]), (0, a.variance_density.shape[1]),
                                             lambda i, j: implies(_cosm(a, j) <= 0, r[i, j] == 0))),
+        ("linear_in_density_at_fixed_roughness", _linear_in_density),
     ],
     raises={},
     callees=dict(DISP),
@@ -296,6 +331,343 @@ romero_dissipation = Contract(
 )
 
 
+# ------------------------------------------------------------------ batch wrappers: each point gets its own result
+# The point function handed to the batch loops is modelled by an uninterpreted function of the
+# cell (i,j), the point index p whose spectrum row was passed, and the scalar inputs of that
+# point: PF(i, j, p, speed, direction, depth, z0).  The model checks at every call that the row
+# passed is row p of the batch array and that grid / parameters are the caller's own objects.
+import z3 as _z3
+import pyvc.terms as _T
+from pyvc.values import Arr as _Arr, Ref as _Ref
+
+PF = _z3.Function("point_generation", _T.IntS, _T.IntS, _T.IntS, _T.RealS, _T.RealS, _T.RealS, _T.RealS, _T.RealS)
+DF = _z3.Function("point_dissipation", _T.IntS, _T.IntS, _T.IntS, _T.RealS, _T.RealS)
+
+
+def _row_of(st, view, batch):
+    """returns p if `view` is syntactically batch[p, :, :] (probed at a generic cell), else None"""
+    v, b = st.deref(view), st.deref(batch)
+    if not isinstance(v, _Arr) or v.ndim != 2:
+        return None
+    i, j = _T.Fresh.int("pi"), _T.Fresh.int("pj")
+    t = v.get((i, j))
+    if _z3.is_app(t) and t.decl().eq(b.func) and t.num_args() == 3 and t.arg(1).eq(i) and t.arg(2).eq(j):
+        return t.arg(0)
+    return None
+
+
+class PointFunctionModel:
+    """callable handed in as `wind_source_term_function` / `dissipation_source_term_function`"""
+
+    def __init__(self, kind, ctxinfo):
+        self.kind, self.info = kind, ctxinfo
+
+    def __call__(self, interp, st, args, kwargs):
+        names = ["variance_density", "wind", "depth", "roughness_length", "spectral_grid", "parameters"] if self.kind == "gen" else \
+            ["variance_density", "depth", "spectral_grid", "parameters"]
+        if len(args) > len(names):
+            raise Unsupported("too many arguments to the point function")
+        b = dict(zip(names, args))
+        for k, v in kwargs.items():
+            if k in b or k not in names:
+                from pyvc.interp import PyRaise
+                from pyvc.values import ExcVal
+                raise PyRaise(ExcVal("TypeError", (f"point function: bad argument {k}",)))
+            b[k] = v
+        if set(b) != set(names):
+            from pyvc.interp import PyRaise
+            from pyvc.values import ExcVal
+            raise PyRaise(ExcVal("TypeError", ("point function: missing argument",)))
+        info = self.info
+        p = _row_of(st, b["variance_density"], info["E"])
+        ctx = interp.ctx
+        ctx.oblige(st, "pre.point_function.row_of_batch", p is not None)
+        if p is None:
+            p = _T.Fresh.int("unknown_row")
+        ctx.oblige(st, "pre.point_function.same_grid", st.deref(b["spectral_grid"]) is st.deref(info["grid"]) or
+                   _same_grid(st, b["spectral_grid"], info["grid"]))
+        ctx.oblige(st, "pre.point_function.same_parameters", _same_params(st, b["parameters"], info["parameters"]))
+        E = st.deref(info["E"])
+        nf, nd = E.shape[1], E.shape[2]
+        if self.kind == "gen":
+            w = st.deref(b["wind"])
+            ctx.oblige(st, "pre.point_function.wind_type", st.deref(w[2]) == info["wtype"])
+            sp, di, de, z0 = (_T.to_real(_T.to_z3(st.deref(x))) for x in (w[0], w[1], b["depth"], b["roughness_length"]))
+            return st.alloc(_Arr((nf, nd), lambda ix, p=p, sp=sp, di=di, de=de, z0=z0: PF(_T.to_z3(ix[0]), _T.to_z3(ix[1]), p, sp, di, de, z0)), "pf")
+        de = _T.to_real(_T.to_z3(st.deref(b["depth"])))
+        return st.alloc(_Arr((nf, nd), lambda ix, p=p, de=de: DF(_T.to_z3(ix[0]), _T.to_z3(ix[1]), p, de)), "df")
+
+
+def _same_grid(st, g1, g2):
+    d1, d2 = st.deref(g1), st.deref(g2)
+    if not isinstance(d1, dict) or not isinstance(d2, dict) or set(d1) != set(d2):
+        return False
+    return all(st.deref(d1[k]) is st.deref(d2[k]) for k in d1)
+
+
+def _same_params(st, p1, p2):
+    d1, d2 = st.deref(p1), st.deref(p2)
+    if d1 is d2:
+        return True
+    if not isinstance(d1, dict) or not isinstance(d2, dict) or set(d1) != set(d2):
+        return False
+    return And(*[eq(d1[k], d2[k]) if not isinstance(d1[k], str) else d1[k] == d2[k] for k in d1])
+
+
+def _p_batch(kind, wtype="u10"):
+    def p(mk):
+        npnt, nf, nd = mk.size("np"), mk.size("nf"), mk.size("nd")
+        E = mk.array("E", (npnt, nf, nd))
+        g = grid(mk, nf, nd)
+        par = record(mk, "parameters", ["p_a", "p_b"])
+        info = {"E": E, "grid": g, "parameters": par, "wtype": wtype}
+        if kind == "gen":
+            return {"variance_density": E, "wind": (mk.array("U", (npnt,)), mk.array("wdir", (npnt,)), wtype),
+                    "depth": mk.array("depth", (npnt,)), "roughness_length": mk.array("z0", (npnt,)),
+                    "wind_source_term_function": PointFunctionModel("gen", info), "spectral_grid": g, "parameters": par}
+        return {"variance_density": E, "depth": mk.array("depth", (npnt,)),
+                "dissipation_source_term_function": PointFunctionModel("dis", info), "spectral_grid": g, "parameters": par}
+    return p
+
+
+def _point_native(kw, p, kind):
+    """native value of the point function's field for batch member p (executable twin of PF / DF)"""
+    f = kw["wind_source_term_function"] if kind == "gen" else kw["dissipation_source_term_function"]
+    if kind == "gen":
+        return f(kw["variance_density"][p], (float(kw["wind"][0][p]), float(kw["wind"][1][p]), kw["wind"][2]), float(kw["depth"][p]),
+                 float(kw["roughness_length"][p]), kw["spectral_grid"], kw["parameters"])
+    return f(kw["variance_density"][p], float(kw["depth"][p]), kw["spectral_grid"], kw["parameters"])
+
+
+def _pf(a, kind, p, i, j):
+    E = a.variance_density
+    if is_symbolic(p, i, j) or hasattr(E, "_a"):
+        if kind == "gen":
+            return PF(_T.to_z3(i), _T.to_z3(j), _T.to_z3(p), a.wind[0][p], a.wind[1][p], a.depth[p], a.roughness_length[p])
+        return DF(_T.to_z3(i), _T.to_z3(j), _T.to_z3(p), a.depth[p])
+    cache = a.__dict__.setdefault("_pfcache", {})
+    if p not in cache:
+        cache[p] = _point_native(a.__dict__, p, kind)
+    return cache[p][i, j]
+
+
+def _rows_post(kind):
+    def post(a, r):
+        E = a.variance_density
+        return forall(0, E.shape[0], lambda p: forall2((0, E.shape[1]), (0, E.shape[2]), lambda i, j: eq(r[p, i, j], _pf(a, kind, p, i, j))), "p")
+    return post
+
+
+def _bulk_post(kind):
+    def post(a, r):
+        E = a.variance_density
+        g = a.spectral_grid
+        return forall(0, E.shape[0], lambda p: eq(r[p], Sum(0, E.shape[1], lambda i: Sum(0, E.shape[2], lambda j:
+                      _pf(a, kind, p, i, j) * g["frequency_step"][i] * g["direction_step"][j])), rtol=1e-9, atol=1e-12), "p")
+    return post
+
+
+BATCH_REQ = [("dims", lambda a: And(a.variance_density.shape[0] >= 0, a.variance_density.shape[1] >= 0, a.variance_density.shape[2] >= 0))]
+
+wind_generation_batch = Contract(B + "generation.py::_wind_generation", params=_p_batch("gen"), requires=BATCH_REQ,
+                                 ensures=[("rows", _rows_post("gen"))])
+bulk_wind_generation_batch = Contract(B + "generation.py::_bulk_wind_generation", params=_p_batch("gen"), requires=BATCH_REQ,
+                                      ensures=[("bulk_is_integral_of_rate", _bulk_post("gen"))])
+dissipation_batch = Contract(B + "dissipation.py::_dissipation", params=_p_batch("dis"), requires=BATCH_REQ,
+                             ensures=[("rows", _rows_post("dis"))])
+bulk_dissipation_batch = Contract(B + "dissipation.py::_bulk_dissipation", params=_p_batch("dis"), requires=BATCH_REQ,
+                                  ensures=[("bulk_is_integral_of_rate", _bulk_post("dis"))])
+
+
+def _samples_batch(kind):
+    def f(rng, tier):
+        import numpy as np
+        from ocean_science_utilities.wavephysics.balance.st4_wind_input import _st4_wind_generation_point
+        from ocean_science_utilities.wavephysics.balance.st6_wave_breaking import st6_dissipation as _st6
+        out = []
+        for _ in range(_n(tier, 4, 30)):
+            npnt, nf, nd = int(rng.integers(1, 5)), int(rng.integers(1, 5)), int(rng.integers(1, 7))
+            E = np.stack([_rand_E(rng, nf, nd) for _ in range(npnt)])
+            g = _rand_grid(rng, nf, nd)
+            if kind == "gen":
+                kw = {"variance_density": E, "wind": (rng.uniform(2, 30, npnt), rng.uniform(0, 360, npnt), "u10"),
+                      "depth": rng.uniform(5, 300, npnt), "roughness_length": 10 ** rng.uniform(-5, -2, npnt),
+                      "wind_source_term_function": _st4_wind_generation_point, "spectral_grid": g,
+                      "parameters": {**_defaults("st4_wind_input.ST4WindInput"), "charnock_maximum_roughness": 1e6}}
+            else:
+                kw = {"variance_density": E * 30, "depth": rng.uniform(5, 300, npnt), "dissipation_source_term_function": _st6,
+                      "spectral_grid": g, "parameters": _defaults("st6_wave_breaking.ST6WaveBreaking")}
+            out.append(("", _typed(kw)))
+        return out
+    return f
+
+
+for _c, _k in ((wind_generation_batch, "gen"), (bulk_wind_generation_batch, "gen"), (dissipation_batch, "dis"), (bulk_dissipation_batch, "dis")):
+    _c.options["samples"] = _samples_batch(_k)
+
+# ------------------------------------------------------------------ class level wiring (rate / bulk_rate / imbalance)
+from pyvc.values import LibFunc as _LibFunc, Opaque as _Opaque, sym_array as _sym_array
+
+
+def _spectrum_stub(mk, name, npnt, nf, nd):
+    f = {"variance_density": mk.array(name + "_E", (npnt, nf, nd)), "depth": mk.array(name + "_depth", (npnt,)),
+         "radian_frequency": mk.array(name + "_omega", (nf,)), "radian_direction": mk.array(name + "_theta", (nd,)),
+         "frequency_step": mk.array(name + "_df", (nf,)), "direction_step": mk.array(name + "_dtheta", (nd,)),
+         "dims": _Opaque("dims"), "dims_space_time": _Opaque("dims"), "coords_space_time": _Opaque("coords"),
+         "coords": _LibFunc("spectrum.coords", lambda i, s, a, k: _Opaque("coords"))}
+    return mk.st.alloc(__import__("pyvc.values", fromlist=["Obj"]).Obj("SpectrumStub", f), name)
+
+
+def _expected_grid(mk, spec):
+    o = mk.st.deref(spec)
+    return mk.st.alloc({"radian_frequency": o.fields["radian_frequency"], "radian_direction": o.fields["radian_direction"],
+                        "frequency_step": o.fields["frequency_step"], "direction_step": o.fields["direction_step"]}, "grid")
+
+
+NUMBA_PARAMS = CalleeContract(B + "source_term.py::_numba_parameters", lambda mk, a: mk.st.alloc(dict(mk.st.deref(a.kwargs)), "typed_dict"),
+                              assumed=True, note="numba typed dict holds exactly the given key/value pairs")
+
+_Z0R = {}
+
+
+def _roughness_result(mk, a):
+    sp = mk.st.deref(a.speed)
+    arr = _sym_array("roughness_from_solver", sp.shape)
+    _Z0R["arr"] = arr
+    return mk.st.alloc(arr, "z0r")
+
+
+ROUGHNESS = CalleeContract(B + "generation.py::WindGeneration.roughness", _roughness_result, assumed=True,
+                           note="roughness solver result (C10); only its use is checked here")
+
+
+def _p_rate(given_roughness, wtype="u10"):
+    def p(mk):
+        npnt, nf, nd = mk.size("np"), mk.size("nf"), mk.size("nd")
+        spec = _spectrum_stub(mk, "spectrum", npnt, nf, nd)
+        par = record(mk, "parameters", ["p_a", "p_b"])
+        info = {"E": mk.st.deref(spec).fields["variance_density"], "grid": _expected_grid(mk, spec), "parameters": par, "wtype": wtype}
+        selfv = mk.instance(B + "generation.py::WindGeneration", {"_parameters": par, "_wind_source_term_function": PointFunctionModel("gen", info),
+                                                                  "_tail_stress_parametrization_function": _Opaque("tail")})
+        return {"self": selfv, "spectrum": spec, "speed": mk.array("U", (npnt,)), "direction": mk.array("wdir", (npnt,)),
+                "roughness_length": mk.array("z0", (npnt,)) if given_roughness else None, "wind_speed_input_type": wtype}
+    return p
+
+
+def _z0_of(a, p):
+    if a.roughness_length is not None:
+        return a.roughness_length[p]
+    return _Z0R["arr"].get((p,))
+
+
+def _rate_post(a, r):
+    E = a.spectrum.variance_density
+    return forall(0, E.shape[0], lambda p: forall2((0, E.shape[1]), (0, E.shape[2]), lambda i, j: eq(
+        r[p, i, j], PF(_T.to_z3(i), _T.to_z3(j), _T.to_z3(p), a.speed[p], a.direction[p], a.spectrum.depth[p], _z0_of(a, p)))), "p")
+
+
+def _bulk_rate_post(a, r):
+    E = a.spectrum.variance_density
+    return forall(0, E.shape[0], lambda p: eq(r[p], Sum(0, E.shape[1], lambda i: Sum(0, E.shape[2], lambda j:
+        PF(_T.to_z3(i), _T.to_z3(j), _T.to_z3(p), a.speed[p], a.direction[p], a.spectrum.depth[p], _z0_of(a, p))
+        * a.spectrum.frequency_step[i] * a.spectrum.direction_step[j]))), "p")
+
+
+RATE_INST = [("given_roughness", _p_rate(True)), ("solved_roughness", _p_rate(False)), ("given_roughness,ustar", _p_rate(True, "ustar"))]
+RATE_REQ = [("dims", lambda a: And(*[d >= 0 for d in a.spectrum.variance_density.shape]))]
+RATE_CALLEES = {NUMBA_PARAMS.target: NUMBA_PARAMS, ROUGHNESS.target: ROUGHNESS}
+
+generation_rate = Contract(B + "generation.py::WindGeneration.rate", instances=RATE_INST, requires=RATE_REQ,
+                           ensures=[("rate_is_point_function_on_own_grid", _rate_post)], callees=RATE_CALLEES)
+generation_bulk_rate = Contract(B + "generation.py::WindGeneration.bulk_rate", instances=RATE_INST, requires=RATE_REQ,
+                                ensures=[("bulk_is_integral_with_own_bin_widths", _bulk_rate_post)], callees=RATE_CALLEES)
+
+
+def _p_dis_rate(mk):
+    npnt, nf, nd = mk.size("np"), mk.size("nf"), mk.size("nd")
+    spec = _spectrum_stub(mk, "spectrum", npnt, nf, nd)
+    par = record(mk, "parameters", ["p_a", "p_b"])
+    info = {"E": mk.st.deref(spec).fields["variance_density"], "grid": _expected_grid(mk, spec), "parameters": par, "wtype": None}
+    selfv = mk.instance(B + "dissipation.py::Dissipation", {"_parameters": par, "_dissipation_function": PointFunctionModel("dis", info)})
+    return {"self": selfv, "spectrum": spec}
+
+
+dissipation_rate = Contract(
+    B + "dissipation.py::Dissipation.rate", params=_p_dis_rate, requires=RATE_REQ, callees=RATE_CALLEES,
+    ensures=[("rate_is_point_function_on_own_grid", lambda a, r: forall(0, a.spectrum.variance_density.shape[0], lambda p: forall2(
+        (0, a.spectrum.variance_density.shape[1]), (0, a.spectrum.variance_density.shape[2]),
+        lambda i, j: eq(r[p, i, j], DF(_T.to_z3(i), _T.to_z3(j), _T.to_z3(p), a.spectrum.depth[p]))), "p"))])
+dissipation_bulk_rate = Contract(
+    B + "dissipation.py::Dissipation.bulk_rate", params=_p_dis_rate, requires=RATE_REQ, callees=RATE_CALLEES,
+    ensures=[("bulk_is_integral_with_own_bin_widths", lambda a, r: forall(0, a.spectrum.variance_density.shape[0], lambda p: eq(
+        r[p], Sum(0, a.spectrum.variance_density.shape[1], lambda i: Sum(0, a.spectrum.variance_density.shape[2], lambda j:
+        DF(_T.to_z3(i), _T.to_z3(j), _T.to_z3(p), a.spectrum.depth[p]) * a.spectrum.frequency_step[i] * a.spectrum.direction_step[j]))), "p"))])
+
+
+# imbalance = generation + dissipation - supplied rate of change
+def _named(name, shape_fn):
+    def res(mk, a):
+        shp = shape_fn(mk, a)
+        return mk.st.alloc(_sym_array(name, shp), name)
+    return res
+
+
+def _spec_shape(mk, a):
+    return mk.st.deref(mk.st.deref(a.spectrum).fields["variance_density"]).shape
+
+
+GEN_RATE = CalleeContract(B + "generation.py::WindGeneration.rate", _named("gen_rate", _spec_shape))
+DIS_RATE = CalleeContract(B + "dissipation.py::Dissipation.rate", _named("dis_rate", _spec_shape))
+GEN_BULK = CalleeContract(B + "generation.py::WindGeneration.bulk_rate", _named("gen_bulk", lambda mk, a: _spec_shape(mk, a)[:1]))
+DIS_BULK = CalleeContract(B + "dissipation.py::Dissipation.bulk_rate", _named("dis_bulk", lambda mk, a: _spec_shape(mk, a)[:1]))
+_GR = _z3.Function("gen_rate", _T.IntS, _T.IntS, _T.IntS, _T.RealS)
+_DR = _z3.Function("dis_rate", _T.IntS, _T.IntS, _T.IntS, _T.RealS)
+_GB = _z3.Function("gen_bulk", _T.IntS, _T.RealS)
+_DB = _z3.Function("dis_bulk", _T.IntS, _T.RealS)
+
+
+def _p_balance(with_ddt):
+    def p(mk):
+        npnt, nf, nd = mk.size("np"), mk.size("nf"), mk.size("nd")
+        spec = _spectrum_stub(mk, "spectrum", npnt, nf, nd)
+        gen = mk.instance(B + "generation.py::WindGeneration", {})
+        dis = mk.instance(B + "dissipation.py::Dissipation", {})
+        selfv = mk.instance(B + "balance.py::SourceTermBalance", {"generation": gen, "dissipation": dis})
+        ddt = None
+        if with_ddt:
+            ddt = _spectrum_stub(mk, "ddt", npnt, nf, nd)
+            m0arr = mk.array("ddt_m0", (npnt,))
+            mk.st.deref(ddt).fields["m0"] = _LibFunc("spectrum.m0", lambda i, s, a, k: m0arr)
+            mk.st.deref(ddt).fields["m0arr"] = m0arr
+        return {"self": selfv, "wind_speed": mk.array("U", (npnt,)), "wind_direction": mk.array("wdir", (npnt,)), "spectrum": spec,
+                "time_derivative_spectrum": ddt}
+    return p
+
+
+BAL_INST = [("with_rate_of_change", _p_balance(True)), ("without", _p_balance(False))]
+
+
+def _imbalance_post(a, r):
+    E = a.spectrum.variance_density
+    ddt = a.time_derivative_spectrum
+    return forall(0, E.shape[0], lambda p: forall2((0, E.shape[1]), (0, E.shape[2]), lambda i, j: eq(
+        r[p, i, j], _GR(_T.to_z3(p), _T.to_z3(i), _T.to_z3(j)) + _DR(_T.to_z3(p), _T.to_z3(i), _T.to_z3(j))
+        - (ddt.variance_density[p, i, j] if ddt is not None else 0))), "p")
+
+
+def _bulk_imbalance_post(a, r):
+    E = a.spectrum.variance_density
+    ddt = a.time_derivative_spectrum
+    return forall(0, E.shape[0], lambda p: eq(r[p], _GB(_T.to_z3(p)) + _DB(_T.to_z3(p)) - (ddt.m0arr[p] if ddt is not None else 0)), "p")
+
+
+imbalance = Contract(B + "balance.py::SourceTermBalance.evaluate_imbalance", instances=BAL_INST, requires=RATE_REQ,
+                     ensures=[("generation_plus_dissipation_minus_rate_of_change", _imbalance_post)],
+                     callees={GEN_RATE.target: GEN_RATE, DIS_RATE.target: DIS_RATE})
+bulk_imbalance = Contract(B + "balance.py::SourceTermBalance.evaluate_bulk_imbalance", instances=BAL_INST, requires=RATE_REQ,
+                          ensures=[("generation_plus_dissipation_minus_rate_of_change", _bulk_imbalance_post)],
+                          callees={GEN_BULK.target: GEN_BULK, DIS_BULK.target: DIS_BULK})
+
 # ------------------------------------------------------------------ native side: typed dicts, samplers
 def _typed(kw):
     """plain dicts of the model -> numba typed dicts as the real code passes them"""
@@ -311,7 +683,8 @@ def _typed(kw):
         out["parameters"] = _numba_parameters(**{k: float(v) for k, v in out["parameters"].items()})
     if "wind" in out:
         w = out["wind"]
-        out["wind"] = (float(w[0]), float(w[1]), w[2])
+        import numpy as _np
+        out["wind"] = (float(w[0]), float(w[1]), w[2]) if _np.ndim(w[0]) == 0 else (_np.asarray(w[0], dtype="float64"), _np.asarray(w[1], dtype="float64"), w[2])
     if "depth" in out and out["depth"] is None:
         out["depth"] = float("inf")
     return out
@@ -407,6 +780,69 @@ for _c, _s in ((st4_point, _samples_st4_point), (integrate2d, _samples_integrate
 for _c in (band_saturation, cumulative_breaking, saturation_breaking, st6_inherent, st6_cumulative):
     _c.native = _native
 
+
+# ------------------------------------------------------------------ bounded: histories through one source-term object
+def _bounded_sequences(tier, seed):
+    """One generation and one dissipation object are used on a *sequence* of spectra with equal shapes but
+    different grids (the single-call contracts above cannot see state carried between calls): after every
+    call bulk == sum(rate*df*dtheta) with the spectrum's own bin widths, and equals a fresh object's result."""
+    import numpy as np
+    from ocean_science_utilities.wavespectra.spectrum import create_2d_spectrum
+    from ocean_science_utilities.wavephysics.balance.st4_wind_input import ST4WindInput
+    from ocean_science_utilities.wavephysics.balance.st6_wave_breaking import ST6WaveBreaking
+    from ocean_science_utilities.wavephysics.balance.st4_wave_breaking import ST4WaveBreaking
+    import xarray
+    rng = np.random.default_rng(seed + 77)
+    n_seq = 3 if tier == "quick" else 15
+    fails, evals, distinct, samples = [], 0, 0, []
+
+    def spectrum(kind, npnt, nf, nd):
+        f = np.linspace(0.05, 0.6, nf) if kind == 0 else np.geomspace(0.04, 0.9, nf)
+        d = (np.linspace(0, 360, nd, endpoint=False) + (0 if kind == 0 else 7.5)) % 360
+        d = np.sort(d)
+        fp = rng.uniform(0.08, 0.2)
+        E1 = (f / fp) ** -5 * np.exp(-1.25 * (f / fp) ** -4) * rng.uniform(0.5, 3)
+        D = np.cos(np.radians(d - rng.uniform(0, 360)) / 2) ** 8
+        E = E1[None, :, None] * D[None, None, :] * rng.uniform(0.5, 2, (npnt, 1, 1))
+        return create_2d_spectrum(frequency=f, direction=d, variance_density=E, time=np.arange(npnt) * 3600.0,
+                                  latitude=np.zeros(npnt), longitude=np.zeros(npnt), depth=np.full(npnt, np.inf))
+
+    def integral(rate, spec):
+        return (rate.values * spec.frequency_step.values[None, :, None] * spec.direction_step.values[None, None, :]).sum(axis=(1, 2))
+    for s in range(n_seq):
+        npnt, nf, nd = int(rng.integers(1, 4)), int(rng.integers(8, 20)), int(rng.choice([12, 24]))
+        gen, dis = ST4WindInput(), (ST6WaveBreaking() if s % 2 else ST4WaveBreaking())
+        for step in range(3):
+            spec = spectrum(step % 2, npnt, nf, nd)
+            U = xarray.DataArray(rng.uniform(5, 25, npnt), dims=["time"])
+            Ud = xarray.DataArray(rng.uniform(0, 360, npnt), dims=["time"])
+            z0 = xarray.DataArray(10 ** rng.uniform(-4.5, -3, npnt), dims=["time"])
+            checks = {
+                "generation.bulk==integral(rate)": (gen.bulk_rate(spec, U, Ud, roughness_length=z0).values, integral(gen.rate(spec, U, Ud, roughness_length=z0), spec)),
+                "dissipation.bulk==integral(rate)": (dis.bulk_rate(spec).values, integral(dis.rate(spec), spec)),
+                "generation.same_as_fresh_object": (gen.rate(spec, U, Ud, roughness_length=z0).values, ST4WindInput().rate(spec, U, Ud, roughness_length=z0).values),
+                "dissipation.same_as_fresh_object": (dis.rate(spec).values, type(dis)().rate(spec).values),
+            }
+            for name, (x, y) in checks.items():
+                evals += 1
+                if not np.allclose(x, y, rtol=1e-8, atol=1e-14):
+                    fails.append({"case": name, "sequence": s, "step": step, "shape": [npnt, nf, nd], "max_abs_diff": float(np.max(np.abs(x - y)))})
+            distinct += 1
+            if len(samples) < 2:
+                samples.append({"sequence": s, "step": step, "shape": [npnt, nf, nd], "grid": "linear" if step % 2 == 0 else "log"})
+    return {"evaluations": evals, "distinct": distinct, "failures": fails[:5], "samples": samples,
+            "domain": f"{n_seq} sequences x 3 spectra (alternating linear/log frequency grids of equal shape) through one ST4 input and one ST4/ST6 dissipation object"}
+
+
+BOUNDED = [Bounded("source_term_object_histories", _bounded_sequences)]
+
 CONTRACTS = [st4_point, integrate2d, integrate_dir, band_saturation, cumulative_breaking, saturation_breaking, st4_dissipation,
-             st6_inherent, st6_cumulative, st6_dissipation, romero_dissipation]
-TRUSTED = []
+             st6_inherent, st6_cumulative, st6_dissipation, romero_dissipation,
+             wind_generation_batch, bulk_wind_generation_batch, dissipation_batch, bulk_dissipation_batch,
+             generation_rate, generation_bulk_rate, dissipation_rate, dissipation_bulk_rate, imbalance, bulk_imbalance]
+TRUSTED = ["numba compiles the source faithfully (every contract's executable twin is evaluated on the compiled functions over seeded samples)",
+           "the point function handed to the batch loops is an arbitrary (uninterpreted) function of its own point's inputs",
+           "xarray.DataArray(data=..) wraps data unchanged; spectrum objects are stubs exposing the arrays the source terms read"]
+EXPLANATION = ("sign/support/linearity of the ST4 input and sign/support of ST4, ST6 and Romero dissipation proved for all grid sizes and values by "
+               "summarising the numba loops; bulk == integral of rate with the spectrum's own bin widths, batch independence and the imbalance formula proved on the "
+               "real wrappers; histories through one source-term object are a bounded stand-in")
